@@ -19,6 +19,7 @@ mod literals;
 mod evaluator;
 mod dataconv;
 mod bundle;
+mod roblox;
 
 fn main() {
     let args: Vec<String> = std::env::args().skip(1).collect();
@@ -43,6 +44,7 @@ fn main() {
         Some("literals") => literals::main(&args[1..]),
         Some("dataconv") => dataconv::main(&args[1..]),
         Some("bundle") => bundle::main(&args[1..]),
+        Some("roblox") => roblox::main(&args[1..]),
         Some("version") => {
             println!("dlv 0.1");
             0
